@@ -41,19 +41,29 @@ pub struct Acc {
     pub inconclusive: u64,
     pub samples:     Vec<J>,
     pub notes:       Vec<String>,
+    pub sig_counts:  std::collections::HashMap<String, u32>,
 }
 impl Acc {
     pub fn new(args: &Args) -> Acc {
         Acc {
             prop: args.prop.clone(), started: Instant::now(), budget: Duration::from_secs_f64(args.secs), max_runs: args.runs,
-            evaluations: 0, distinct: HashSet::new(), counters: J::obj(), violations: Vec::new(), inconclusive: 0, samples: Vec::new(), notes: Vec::new(),
+            evaluations: 0, distinct: HashSet::new(), counters: J::obj(), violations: Vec::new(), inconclusive: 0, samples: Vec::new(), notes: Vec::new(), sig_counts: Default::default(),
         }
     }
     pub fn more(&self) -> bool { self.evaluations < self.max_runs && self.started.elapsed() < self.budget && self.violations.len() < 300 }
     pub fn count(&mut self, k: &str, n: u64) { self.counters.add(k, n as i64) }
     pub fn nontrivial(&mut self, h: u64) { if self.distinct.len() < 400_000 { self.distinct.insert(h); } }
     pub fn sample(&mut self, max: usize, f: impl FnOnce() -> J) { if self.samples.len() < max { let j = f(); self.samples.push(j) } }
-    pub fn violation(&mut self, v: J) { self.violations.push(v) }
+    /// files a violation record; identical signatures (string / boolean fields) are stored at most 12 times per shard, the rest is only counted
+    pub fn violation(&mut self, v: J) {
+        let mut key = String::new();
+        if let Some(J::Arr(sigs)) = v.get("sigs") {
+            for s in sigs { if let J::Obj(o) = s { for (k, val) in o { match val { J::Str(x) => { key.push_str(k); key.push('='); key.push_str(x); key.push(';') } J::Bool(b) => { key.push_str(k); key.push_str(if *b { "=1;" } else { "=0;" }) } _ => {} } } } key.push('|') }
+        }
+        let n = self.sig_counts.entry(key).or_insert(0);
+        *n += 1;
+        if *n <= 12 { self.violations.push(v) } else { self.counters.add("violation_records_not_stored(duplicates_of_a_stored_signature)", 1) }
+    }
     /// bookkeeping common to every run that went through `sched::run`
     pub fn account(&mut self, rep: &Report) {
         self.evaluations += 1;
